@@ -130,6 +130,31 @@ func init() {
 			emit(Op{"op": "par", "ops": batch})
 		})
 	}}
+	/* the same text published under each of the four media types, one document after the other in
+	   one process (and a second round): which renderer lays a body out is decided by the media
+	   type of THAT document */
+	groups["C15m"] = group{gen: func(r *rand.Rand, n int, emit func(Op)) {
+		types := []string{"text/html", "text/plain", "text/gemini", "text/markdown", "", "text/html; charset=utf-8", "TEXT/PLAIN"}
+		for i := 0; i < n; {
+			tag := fmt.Sprintf("%d", r.Intn(1<<30))
+			content := pick(r, []string{
+				"<p>one <b>two</b> https://t.example/" + tag + "</p>\n\n=> https://t.example/g" + tag + " label\n# head " + tag + "\n* item [l](https://t.example/m" + tag + ")",
+				"plain " + tag + " words https://t.example/p" + tag + " and <i>tags</i> & more\nsecond line",
+				"# " + tag + "\n\n> quote\n\n```\ncode <b>x</b>\n```\n[ref]: https://t.example/r" + tag})
+			order := r.Perm(len(types))
+			for round := 0; round < 2; round++ {
+				for _, k := range order {
+					doc := map[string]any{"k": content}
+					if types[k] != "" {
+						doc["m"] = types[k]
+					}
+					b, _ := json.Marshal(doc)
+					emit(Op{"op": "accessor", "doc": string(b), "key": "k", "key2": "m", "acc": "markup"})
+					i++
+				}
+			}
+		}
+	}}
 	groups["C13par"] = pack("C13", 12)
 	groups["renderpar"] = pack("render", 6)
 }
